@@ -77,6 +77,9 @@ class Path(PathRun, ExprMixin, CallMixin, BuiltinMixin, StmtMixin):
                     raise PyRaise('TypeError', getattr(node, 'lineno', None), f'{nm}() takes {len(names)} positional arguments')
                 for a, v in zip(names, ts):
                     self.assume(self.fld(a, t) == v)
+                # remembered for prove(): the same projection facts are added for every ground application of this
+                # constructor that turns up in a goal (e.g. an element of a comprehension once instantiated at an index)
+                self.ctor_info.setdefault(t.decl().name(), [(a, self.field_arr(a)) for a in names[:len(ts)]])
             return SDyn(t)
         if f.name.startswith('ctor!'):
             nm = f.name[5:]
@@ -372,8 +375,32 @@ class Driver:
         res.inlined = sorted(self.inlined)
         res.used_contracts = sorted(self.used_contracts)
         res.used_builtins = sorted(self.used_builtins)
+        res.target['ast_sha'] = self.code_hash(fnode, res.inlined)
         res.wall = time.time() - t0
         return res
+
+    @staticmethod
+    def _norm_dump(node):
+        """ast dump without docstrings (comments and layout are not in the ast)"""
+        import copy
+        n = copy.deepcopy(node)
+        for sub in ast.walk(n):
+            body = getattr(sub, 'body', None)
+            if isinstance(sub, (ast.FunctionDef, ast.ClassDef, ast.Module)) and body and isinstance(body[0], ast.Expr) \
+                    and isinstance(body[0].value, ast.Constant) and isinstance(body[0].value.value, str):
+                sub.body = body[1:] or [ast.Pass()]
+        return ast.dump(n)
+
+    def code_hash(self, fnode, inlined):
+        """identifies the code the obligations were generated from: the function under contract and every callee verified inline"""
+        import hashlib
+        parts = [self._norm_dump(fnode)]
+        for q in inlined:
+            try:
+                parts.append(q + '=' + self._norm_dump(modinfo.resolve(q)[1]))
+            except Exception:
+                parts.append(q + '=?')
+        return hashlib.sha1('\n'.join(parts).encode()).hexdigest()
 
     def run_lemma(self, res, t0):
         """a lemma over specification functions: params are universally quantified, requires => each ensures"""
